@@ -69,6 +69,9 @@ def corpus():
           mk_knn([2.0], [3.0], [7.0], 1, "max", [0.0, 5.0], [0.0, 5.0], [2], "corpus-single-point"),
           mk_knn(es, ns, [1.0, 2.0, 4.0, 8.0][:len(es)], 2, "mean", [1.0, 2.0], [1.0, -3.0], [2], "corpus-intdata-k2-mean"),
           mk_knn(es, ns, [1.0, 2.0, 4.0, 9.0][:len(es)], 4, "median", [1.0, 2.0], [1.0, -3.0], [2], "corpus-intdata-median"),
+          # heights stored as int16 / counts as uint8 near the top of the type: the mean of k of them does not fit the type, the result must
+          mk_knn(es + [5.0, -2.0], ns + [6.0, -3.0], [32000.0, 31500.0, 30250.0, 32767.0, 29000.0, 31000.0], 5, "mean", [1.0, 2.0, 7.5], [1.0, -3.0, 2.5], [3], "knn-narrow-int"),
+          mk_knn(es + [5.0, -2.0], ns + [6.0, -3.0], [250.0, 255.0, 201.0, 240.0, 233.0, 254.0], 3, "mean", [1.0, 2.0, 7.5], [1.0, -3.0, 2.5], [3], "knn-narrow-int"),
           mk_md(es, ns, 1, [4], "corpus-md"), mk_md(es, ns, 3, [2, 2], "corpus-md-2d"),
           mk_mask(es, ns, 5.0, [3.0, 0.0, 6.0, 20.0], [8.0, -5.0, 8.0, 20.0], [4], None, None, "corpus-boundary-3-4-5"),
           mk_mask(es, ns, 5.0, None, None, None, None, ([0.0, 3.0, 6.5], [-5.0, 0.0]), "corpus-grid"),
@@ -101,6 +104,10 @@ def generate(rng, tier):
                     qe[j], qn[j] = es[i], ns[i]
                 kind = "knn-query-at-data"
             cs.append(mk_knn(es, ns, data, k, rng.choice(list(REDS)), qe, qn, shape2d, kind))
+            if rng.random() < 0.12 and npts >= 3:
+                top = rng.choice([255, 32767])
+                nd = [float(top - rng.randint(0, top // 5)) for _ in es]
+                cs.append(mk_knn(es, ns, nd, rng.randint(2, min(npts, 12)), "mean", qe, qn, shape2d, "knn-narrow-int"))
         elif u < 0.65:
             sh = [npts] if (npts % 2 or rng.random() < 0.6) else [2, npts // 2]
             cs.append(mk_md(es, ns, rng.randint(1, npts - 1), sh, "median_distance"))
@@ -128,6 +135,8 @@ def impl(case):
             darr = np.array(data)
             if all(float(v).is_integer() for v in data):
                 darr = darr.astype("int64" if len(data) % 2 else "int16")      # elevations / counts: the reduction must not be truncated
+            if case["kind"] == "knn-narrow-int":
+                darr = np.array(data).astype("uint8" if max(data) < 256 else "int16")      # values near the top of a narrow integer type
             ce, cn = np.array(es), np.array(ns)
             g = vd.KNeighbors(k=k, reduction=REDS[red])
             if (len(es) + k) % 3 == 0:
@@ -135,6 +144,15 @@ def impl(case):
                 m0 = 1 + (len(es) % 3)
                 g.fit((np.arange(m0) * 7.5 - 100.0, np.arange(m0) * -2.5 + 40.0), np.arange(m0) * 1.0 + 0.5)
             g.fit((ce, cn), darr)
+            if (len(es) + k) % 2 == 0:
+                # a refit is ATTEMPTED on a cloud of the same size with a non-finite coordinate (the tree refuses it); the caller catches the error
+                # and goes on with the model it had
+                e_bad = ce.astype(float).copy()
+                e_bad[len(e_bad) // 2] = np.nan
+                try:
+                    g.fit((e_bad, cn * 0.5 + 1.0), np.asarray(darr, dtype=float)[::-1] * -2.0 + 0.25)
+                except Exception:  # noqa: BLE001
+                    pass
             if g.k != k:
                 raise RuntimeError(f"hyper-parameter k changed from {k} to {g.k}")
             # the caller goes on using its own arrays after the fit (in place): the fitted model must not follow them
